@@ -120,6 +120,8 @@ func runHistories(run *Run, cfg histCfg) (*TraceSummary, []*StoreRec) {
 	ctx := context.Background()
 	r := rand.New(rand.NewSource(run.Seed))
 	var recs []*StoreRec
+	rowFaultRetries := 0
+	defer func() { run.Coverage["read_requests_failed_by_a_row_fault_and_retried"] = rowFaultRetries }()
 	for _, backend := range cfg.Backends {
 		rec := &StoreRec{Backend: backend}
 		recs = append(recs, rec)
@@ -193,7 +195,20 @@ func runHistories(run *Run, cfg histCfg) (*TraceSummary, []*StoreRec) {
 					var pages [][]Tuple
 					token := ""
 					for guard := 0; guard < 200; guard++ {
+						// sqlite: now and then one row fetch of the page query fails (the rows of the page or the
+						// look-ahead row behind it); the request must fail - it is retried with the same token -
+						// or return a correct page, never a short listing
+						faulted := backend == "sqlite" && r.Intn(3) == 0
+						if faulted {
+							Inj.ArmRow(1 + r.Intn(size+2))
+						}
 						resp, err := env.S.Read(ctx, &openfgav1.ReadRequest{StoreId: st.sid, PageSize: pageSize(size), ContinuationToken: token})
+						if faulted {
+							if Inj.DisarmRow() && err != nil {
+								rowFaultRetries++
+								continue
+							}
+						}
 						if err != nil {
 							run.Inconclusive("read: %v", err)
 						}
@@ -450,9 +465,10 @@ func C14(run *Run) {
 		replayStore(run)
 		return
 	}
+	burstWalkProbe(run) // every entry of a burst of concurrent writers exactly once in a later walk (ConcWriteTrace!TrBurst)
 	runHistories(run, histCfg{Backends: []string{"memory", "sqlite"}, Histories: run.Pick(10, 120), Steps: run.Pick(40, 80), Walks: true, Tokens: true, Models: true, Stores: true})
 	storeModelStates(run)
-	run.Coverage["rule"] = "random histories of writes, model writes and store creation/deletion on memory and sqlite; walks following continuation tokens from the first page with random page sizes 1..n+1 through Read, ReadChanges (with/without object-type filter), ListStores and ReadAuthorizationModels, judged by StoreTrace (PagesOK: every item exactly once, documented order, no oversized page); ReadChanges tokens replayed with another type filter and malformed tokens must be rejected; design level: PagesCover invariant for every page size over every reachable changelog of FGAStoreModel; non-trivial = distinct (backend, api, page size, data)"
+	run.Coverage["rule"] = "bursts of 8-16 concurrent writers followed by a paginated changelog walk (every entry exactly once); sqlite Read pages with a row fetch failing now and then (the request fails and is retried, or the page is right); random histories of writes, model writes and store creation/deletion on memory and sqlite; walks following continuation tokens from the first page with random page sizes 1..n+1 through Read, ReadChanges (with/without object-type filter), ListStores and ReadAuthorizationModels, judged by StoreTrace (PagesOK: every item exactly once, documented order, no oversized page); ReadChanges tokens replayed with another type filter and malformed tokens must be rejected; design level: PagesCover invariant for every page size over every reachable changelog of FGAStoreModel; non-trivial = distinct (backend, api, page size, data)"
 	run.Assumptions = []string{"data sets are tens of items, not hundreds (TLC holds the trace in memory)", "mysql/postgres cannot run here"}
 }
 
